@@ -33,6 +33,9 @@ for p in props:
                     if any(m.startswith("Whawty.Props.Gen") for m in c["modules"]) else ". ") + ("The split function of the codec (scanLengthEncodedString) is TRANSLATED statement by statement from the "
                     "source on every run (translate.go -> lean/Whawty/Gen/Scan.lean) and proved equal to the model's "
                     "scan (Props/GenScan.lean: scan_is_source). " if "Whawty.Props.GenScan" in c["modules"] else "") +
+                   ("The directory-entry classification (checkUserFile) is TRANSLATED statement by statement from the "
+                    "source on every run (lean/Whawty/Gen/CheckFile.lean) and proved equal to the model's "
+                    "(Props/GenCheckFile.lean: checkUserFile_is_source). " if "Whawty.Props.GenCheckFile" in c["modules"] else "") +
                    " ".join(c.get("trusted", [])) +
                    (" Decided by the run only (partial): " + "; ".join(c["partial"]) if c.get("partial") else ""),
         technique="Lean 4 theorems about a hand-written executable model + differential correspondence (model vs "
